@@ -1011,6 +1011,34 @@ class Rewriter:
         return code
 
     def char_indices_loops(self, code):
+        # an iterator held in a variable:  `let mut IT = S.char_indices();`  ...  `IT.next()`  ...  `for (i, c) in IT {`
+        #   -> the collected (byte offset, char) pairs and a cursor: next() reads at the cursor and advances it, the loop
+        #      walks the rest (the semantics of an iterator consumed in pieces)
+        k_hi = 0
+        while True:
+            m_hi = mask(code)
+            mm_hi = re.search(r'(?<![A-Za-z0-9_])let\s+mut\s+([a-z_][a-z0-9_]*)\s*=\s*([A-Za-z_][A-Za-z0-9_.]*)\s*\.\s*char_indices\s*\(\s*\)\s*;', m_hi)
+            if not mm_hi:
+                break
+            it_, s_ = mm_hi.group(1), mm_hi.group(2)
+            code = code[:mm_hi.start()] + 'let %s_ci__ = %s.vx_char_indices(); let mut %s_k__: usize = 0;' % (it_, s_, it_) + code[mm_hi.end():]
+            # IT.next()
+            code = re.sub(r'(?<![A-Za-z0-9_.])%s\s*\.\s*next\s*\(\s*\)' % re.escape(it_), 'vx::pairs_next(&%s_ci__, &mut %s_k__)' % (it_, it_), code)
+            # for (i, c) in IT {
+            m2 = mask(code)
+            mf = re.search(r'(?<![A-Za-z0-9_])for\s*\(\s*([a-z_][a-z0-9_]*)\s*,\s*([a-z_][a-z0-9_]*)\s*\)\s*in\s+%s\s*\{' % re.escape(it_), m2)
+            if mf:
+                ob = mf.end() - 1
+                cb = match_close(m2, ob)
+                i_, c_ = mf.group(1), mf.group(2)
+                inner = code[ob + 1:cb]
+                if re.search(r'(?<![A-Za-z0-9_])continue(?![A-Za-z0-9_])', mask(inner)):
+                    raise ExtractError('iterator loop with `continue` cannot become a cursor loop')
+                rep = ('while %s_k__ < %s_ci__.len() /*@auto invariant %s_k__ <= %s_ci__.len(); decreases %s_ci__.len() - %s_k__*/ '
+                       '{ let %s: usize = %s_ci__[%s_k__].0; let %s: char = %s_ci__[%s_k__].1; %s_k__ += 1; %s }' % (it_, it_, it_, it_, it_, it_, i_, it_, it_, c_, it_, it_, it_, inner))
+                code = code[:mf.start()] + rep + code[cb + 1:]
+            k_hi += 1
+        self.note('held char_indices() iterator -> collected pairs with a cursor (next / for over the rest)', k_hi)
         # `for (i, c) in S.char_indices() {` -> counter loop over the collected (byte offset, char) pairs
         k_ci = 0
         while True:
